@@ -26,3 +26,12 @@ func TargetHash(data []byte, targetScore uint64) *big.Int { return targetHash(da
 func StateToInt(l, h *[consts.HashTrinarySize]uint, idx uint) *big.Int { return stateToInt(l, h, idx) }
 
 func Difficulty(powDigest []byte, nonce uint64) *big.Int { return difficulty(powDigest, nonce) }
+
+// WorkerRun exposes the mining loop of a single worker goroutine (no cancellation) for differential runs.
+func (w *Worker) WorkerRun(powDigest []byte, startNonce uint64, sufficientTrailing int, target *big.Int) (uint64, error) {
+	var (
+		done    uint32
+		counter uint64
+	)
+	return w.worker(powDigest, startNonce, sufficientTrailing, target, &done, &counter)
+}
